@@ -989,3 +989,52 @@ func (c *Ctx) UnderArm(site ssa.Instruction, label string, when ...FM) bool {
 	c.violate(site, site.Parent(), label, "guard \""+label+"\" does not hold on every way into an arm enclosing "+instrStr(site), nil)
 	return false
 }
+
+// NilCheckedUse: every dereferencing use (field access, method call receiver,
+// load) of the result of a call matching cm inside fn happens where that
+// result is known to be non-nil. Returns the number of uses checked.
+func (c *Ctx) NilCheckedUse(fn *ssa.Function, cm CM, label string) int {
+	n := 0
+	for _, ci := range callsIn(fn, cm) {
+		v := ci.Value()
+		if v == nil || v.Referrers() == nil {
+			continue
+		}
+		is := func(x ssa.Value) bool { return x == ssa.Value(v) }
+		for _, ref := range *v.Referrers() {
+			deref := false
+			switch x := ref.(type) {
+			case *ssa.FieldAddr:
+				deref = x.X == ssa.Value(v)
+			case *ssa.UnOp:
+				deref = x.Op == token.MUL && x.X == ssa.Value(v)
+			case *ssa.Call:
+				if !x.Call.IsInvoke() && len(x.Call.Args) > 0 && x.Call.Args[0] == ssa.Value(v) {
+					if cal := x.Call.StaticCallee(); cal != nil && cal.Signature.Recv() != nil {
+						// a method with pointer receiver may tolerate nil; only methods that touch a field directly are derefs.
+						// Conservative: treat as a use that needs the check when the callee dereferences its receiver in its entry block.
+						deref = derefsReceiverAtEntry(cal)
+					}
+				}
+			}
+			if !deref {
+				continue
+			}
+			n++
+			c.MustFact(ref, label, NotNil(is))
+		}
+	}
+	return n
+}
+
+func derefsReceiverAtEntry(f *ssa.Function) bool {
+	if len(f.Blocks) == 0 || len(f.Params) == 0 {
+		return false
+	}
+	for _, in := range f.Blocks[0].Instrs {
+		if fa, ok := in.(*ssa.FieldAddr); ok && fa.X == ssa.Value(f.Params[0]) {
+			return true
+		}
+	}
+	return false
+}
